@@ -10,8 +10,8 @@ objects* the package hands to thermosteam's solvers (``thermo.Gamma(chemicals)``
 * bubble / dew temperature by ``brentq`` on the pressure residual.
 
 Nothing from ``thermosteam.equilibrium`` (VLE, BubblePoint, DewPoint, binary_phase_fraction) is
-used.  The gas phase is ideal and the Poynting factor is 1, which is what the default
-packages (`IdealFugacityCoefficients`, `MockPoyintingCorrectionFactors`) state.
+used.  The gas phase is ideal; the Poynting factor comes from the package's own `thermo.PCF(chemicals)` object
+(1 for the default `MockPoyintingCorrectionFactors`).
 """
 from __future__ import annotations
 
@@ -29,10 +29,26 @@ class RefFlash:
         self.ideal = ideal or self.n < 2
         self._gamma = None if self.ideal else thermo.Gamma(self.chemicals)
         self._psat = [c.Psat for c in self.chemicals]
+        # Poynting factors from the package's own model object (1 for the default MockPoyintingCorrectionFactors)
+        self._pcf = None if self.ideal else thermo.PCF(self.chemicals)
+        self.has_pcf = self._pcf is not None and type(self._pcf).__name__ != 'MockPoyintingCorrectionFactors'
 
     # -- models ---------------------------------------------------------------
     def Psats(self, T):
         return np.array([float(f(T)) for f in self._psat], float)
+
+    def pcf(self, T, P, Ps=None):
+        if not self.has_pcf:
+            return np.ones(self.n)
+        Ps = self.Psats(T) if Ps is None else Ps
+        try:
+            with np.errstate(all='ignore'):
+                f = np.ones(self.n) * np.asarray(self._pcf(float(T), float(P), np.array(Ps, float)), float)
+        except Exception:
+            return np.ones(self.n)
+        # far outside the liquid range (bracket ends of the temperature solves) the liquid volume model is meaningless
+        f = np.where(np.isfinite(f), f, 1.0)
+        return np.clip(f, 1.0, 3.0)
 
     def gamma(self, x, T):
         if self._gamma is None:
@@ -44,8 +60,15 @@ class RefFlash:
     # -- envelope at fixed T --------------------------------------------------
     def bubble_P(self, z, T):
         z = np.asarray(z, float); z = z / z.sum()
-        pp = z * self.gamma(z, T) * self.Psats(T)
-        P = float(pp.sum())
+        Ps = self.Psats(T)
+        base = z * self.gamma(z, T) * Ps
+        P = float(base.sum()); pp = base
+        if self.has_pcf:
+            for _ in range(200):            # the Poynting factor depends (weakly) on P: substitution on P
+                pp = base * self.pcf(T, P, Ps)
+                Pn = float(pp.sum())
+                if abs(Pn - P) <= 1e-13 * Pn: P = Pn; break
+                P = Pn
         return P, pp / P
 
     def dew_P(self, z, T, maxiter=2000):
@@ -55,12 +78,13 @@ class RefFlash:
         P = None
         for _ in range(maxiter):
             g = self.gamma(x, T)
+            if self.has_pcf and P is not None: g = g * self.pcf(T, P, Ps)
             w = z / (g * Ps)
             Pn = 1.0 / w.sum()
             xn = w * Pn
-            done = P is not None and abs(Pn - P) <= 1e-14 * Pn and np.abs(xn - x).max() <= 1e-14
+            done = P is not None and abs(Pn - P) <= 1e-13 * Pn and np.abs(xn - x).max() <= 1e-13
             x, P = xn, Pn
-            if done or self.ideal:
+            if done or (self.ideal and not self.has_pcf):
                 break
         return float(P), x
 
@@ -117,7 +141,8 @@ class RefFlash:
         Ps = self.Psats(T)
         theta = (P_bub - P) / (P_bub - P_dew)
         x = (1 - theta) * z + theta * x_d
-        lnK = np.log(self.gamma(x, T) * Ps / P)
+        pc = self.pcf(T, P, Ps)
+        lnK = np.log(self.gamma(x, T) * pc * Ps / P)
         V = theta
         ok = False
         for it in range(1, maxiter + 1):
@@ -127,7 +152,7 @@ class RefFlash:
                 break
             V = Vn
             x = z / (1.0 + V * (K - 1.0)); x = x / x.sum()
-            lnKn = np.log(self.gamma(x, T) * Ps / P)
+            lnKn = np.log(self.gamma(x, T) * pc * Ps / P)
             d = np.abs(lnKn - lnK).max()
             lnK = lnKn
             if d < LNK_TOL:
